@@ -20,6 +20,7 @@ relations.sieve). What IS proved, for all inputs, about the models of Ymq/Model/
 * `emitted_subset_inputs`, `emit_hom`: for every history of `CRelationSet::add` calls the
   emitted relations are relations that were added; hence every homomorphism that kills the sieved
   relations kills every emitted relation (every line of relations.sieve, `relLine_val`);
+* `filter_hom`: the relation filter before the linear algebra only derives consequences of its input;
 * `reduced_enum_*`, `reduced_enum`: the reference enumeration of reduced primitive forms is exact.
   That this number IS the class number (Gauss) is the *definition* of `classNumber`, a named
   classical fact that is not proved here;
@@ -31,6 +32,7 @@ import Ymq.Lemmas.ClassGroupForms
 import Ymq.Lemmas.ClassGroupSign
 import Ymq.Lemmas.ClassGroupRel
 import Ymq.Lemmas.ClassGroupTotal
+import Ymq.Lemmas.ClassGroupFilter
 import Mathlib.Algebra.BigOperators.Group.List.Basic
 import Mathlib.Algebra.Group.Basic
 import Mathlib.Data.Finset.Card
@@ -250,6 +252,39 @@ theorem relLine_val {G : Type*} [AddCommGroup G] (g : Nat → G) (r : Rel)
     | none => simp [lineVal]
     | some pe => exact lineVal_one g pe (h2 pe h)
 
+/-! ### the relation filter (`RelFilterSparse`) -/
+
+open Ymq.ClassGroup.Filter in
+/-- `filter_hom`: soundness of the relation filter that precedes the linear algebra
+(`RelFilterSparse::{new, pivot_one, pivot, rowsub, trim, remove_duplicates}` driven by the loop of
+`group_structure_dense`). Whatever pivots are chosen, whatever is trimmed, wherever an `i32`
+overflow stops the elimination: if the assignment `g` of elements of an abelian group to primes
+kills every relation handed to the filter, then it kills every row the filter keeps
+(relations.filtered) and every saved relation `p = ∏ l^e` holds (`g p = Σ e • g l`,
+relations.removed). The filter only derives consequences of its input; it cannot introduce a
+false relation. (Nothing is claimed about completeness: `trim` discards rows on purpose.) -/
+theorem filter_hom {G : Type*} [AddCommGroup G] (g : Nat → G) (rels : List Rel) (s : FSt) (dups : Nat)
+    (h : filterDense rels = some (s, dups)) (hin : ∀ r ∈ rels, relVal g r = 0) :
+    (∀ row ∈ s.rows, rowVal g row = 0) ∧ (∀ pr ∈ s.removed, g pr.1 = rowVal g pr.2) := by
+  have h0 : FInv g (FSt.new rels) := by
+    apply new_inv
+    intro r hr
+    have := hin r hr
+    obtain ⟨fs, l1, l2⟩ := r
+    cases l1 <;> cases l2 <;>
+      simp only [relVal, relRow, rowVal, List.map_append, List.sum_append, List.map_cons, List.map_nil,
+        List.sum_cons, List.sum_nil, List.append_nil, add_zero] at this ⊢ <;> exact this
+  unfold filterDense at h
+  simp only at h
+  split at h
+  · simp at h
+  · rename_i s1 hs1
+    have h1 := filterLoop_inv _ _ s1 h0 hs1
+    have h2 := removeDuplicates_inv h1
+    simp only [Option.some.injEq] at h
+    rw [h] at h2
+    exact h2
+
 /-! ### reference class number -/
 
 /-- soundness of the enumeration -/
@@ -332,6 +367,14 @@ example : RelOk ⟨[(7, 1)], some (101, 1), some (103, 1)⟩ := by
   · intro pe h; simp only [Option.some.injEq] at h; subst h; decide
   · intro pe h; simp only [Option.some.injEq] at h; subst h; decide
   · intro pe qe h1 h2; simp only [Option.some.injEq] at h1 h2; subst h1; subst h2; decide
+/-- the filter on a small input (also a K corpus line): `101`, `7`, `5` are eliminated, two rows in `3` remain -/
+example : (match Ymq.ClassGroup.Filter.filterDense
+    [⟨[(3, 1), (5, -1)], none, none⟩, ⟨[(3, 1)], some (101, 1), none⟩, ⟨[(5, 1)], some (101, -1), none⟩,
+     ⟨[(7, 1), (3, 2)], none, none⟩, ⟨[(7, -1), (5, 1)], none, none⟩] with
+    | some (s, d) => (s.rows, s.removed, d)
+    | none => ([], [], 0))
+    = ([[(3, 2)], [(3, 3)]], [(101, [(3, -1)]), (7, [(3, -2)]), (5, [(3, 1)])], 0) := by
+  decide +kernel
 example : classNumber (-23) = 3 := by decide +kernel
 /-- `relation_no_panic` on a real candidate: D = -23, unit polynomial x² + x + 6, x = 1: P = 8 = 2³, y = 3 -/
 example : relationOf false 1 1 6 1 151 302 false [] [(2, 1), (3, 1), (13, 9)] [2, 3, 13] [] 1 1
